@@ -394,6 +394,65 @@ def newpoint_rows(prog, sh=None):
     return n, wrong
 
 
+def cmp_rows(prog, sh=None):
+    """ec_ws_cmp as the equality of keys and points (C08, C06): equal iff the same group element, whatever the
+    projective representation; in particular Q != -Q (same x), and the neutral element equals only itself, on either
+    side."""
+    sh = sh or Shard()
+    wrong = []
+    n = 0
+    if not CURVES:
+        raise Undecided("curve constants were not loaded")
+    for name in ("p256", "p384", "p521", "p224"):
+        if not sh.take():
+            continue
+        C = Curve(prog, name)
+        m = C.m
+        p, G = C.p, C.G
+        G2 = ref_add(G, G, p)
+        G3 = ref_add(G2, G, p)
+        neg = lambda A: (A[0], (-A[1]) % p)
+
+        def fresh(A):
+            rc, q = C.point(A)
+            if rc != 0:
+                raise CError("contract", "ec_ws_new_point refused a curve point (%r)" % rc)
+            return q
+
+        def proj2():
+            a = fresh(G)
+            m.call("ec_ws_double", [a])
+            return a
+        pairs = [("G, G", fresh(G), fresh(G), True), ("G, -G (same x)", fresh(G), fresh(neg(G)), False), ("-G, G", fresh(neg(G)), fresh(G), False),
+                 ("G, 2G", fresh(G), fresh(G2), False), ("2G projective, 2G affine", proj2(), fresh(G2), True), ("2G affine, 2G projective", fresh(G2), proj2(), True),
+                 ("2G projective, -2G", proj2(), fresh(neg(G2)), False), ("-2G, 2G projective", fresh(neg(G2)), proj2(), False),
+                 ("3G, -3G", fresh(G3), fresh(neg(G3)), False),
+                 ("O, O", fresh(None), fresh(None), True), ("O, G", fresh(None), fresh(G), False), ("G, O", fresh(G), fresh(None), False),
+                 ("O, 2G projective", fresh(None), proj2(), False), ("2G projective, O", proj2(), fresh(None), False)]
+        for what, a, b, eq in pairs:
+            n += 1
+            r = m.call("ec_ws_cmp", [a, b])
+            if (r == 0) != eq:
+                wrong.append("%s: ec_ws_cmp(%s) says %s" % (name, what, "equal" if r == 0 else "different (code %r)" % r))
+    return n, wrong
+
+
+def cmp_tables(check, ctx, rule="EQ-c"):
+    CURVES.clear()
+    CURVES.update(read_curves(ctx.repo))
+    prog = CProgram(ctx.cdb)
+    prog.tu(SRC)
+    res = run_sharded(ctx.root, prog, __name__, ["cmp_rows"], shards=4)
+    n, wrong, und = res["cmp_rows"]
+    if und:
+        raise AnalysisError("C evaluator could not decide the ec_ws_cmp rows: %s" % und)
+    check.ob(rule, "%s|c|ec_ws.cmp" % rule, not wrong, SRC, 0,
+             extracted=("%d of %d pairs differ: " % (len(wrong), n) + "; ".join(wrong[:3])) if wrong else "%d pairs on P-224/256/384/521: equal iff the same group element (Q != -Q, projective = affine, O only equals O, both argument orders)" % n,
+             expected="== of EC points and keys is equality of group elements")
+    check.count("c_ec_cmp_rows", n)
+    return n
+
+
 def newpoint_tables(check, ctx, rule="G-c"):
     CURVES.clear()
     CURVES.update(read_curves(ctx.repo))
